@@ -3,7 +3,7 @@ import itertools
 
 from ..framework import Check
 
-KEYS = ["v1", "v10", "v2", "V2"]
+KEYS = ["v1", "v10", "v2", "V2", ""]
 REQUESTS = ["", "V", "V2", "V3", "v", "v1", "v10", "v15", "v2", "v3", "latest"]
 FAMILIES = ["register", "block", "section"]
 
@@ -25,7 +25,7 @@ class CHECK(Check):
     theorems = ["C19_select", "C19_max_le_spec", "C19_perm", "C19_isolation", "C19_isolation_parent"]
     rule = ("class trees (framework base + 4 user classes: table owner, child without own list, child with own "
             "list, sibling with its own table) x version tables = every subset of the key alphabet "
-            "{v1,v10,v2,V2} in every declaration order x request strings below/between/equal/above the keys x "
+            "{v1,v10,v2,V2,''} in every declaration order x request strings below/between/equal/above the keys x "
             "1-4 successive selections on any user class x three file families; a case is non-trivial when at "
             "least one selection changes an active list; distinct = distinct case hash")
     exhaustive = False
@@ -53,7 +53,7 @@ class CHECK(Check):
         # complete enumeration: every table x every request x every target class, one selection
         for fi, fam in enumerate(FAMILIES):
             for ti, tk in enumerate(tables):
-                if tier == "quick" and (ti + fi) % 3 != 0 and len(tk) > 2:
+                if tier == "quick" and ((ti + fi) % 3 != 0 and len(tk) > 2 or (len(tk) > 3 and (ti + fi) % 15 != 0)):
                     continue
                 for v in REQUESTS:
                     for target in (1, 2, 3):
